@@ -238,8 +238,9 @@ ByzSpec GenerateTinySpec(uint64_t seed) {
 // Stratified instances: |index| enumerates the structure (up to four symbols,
 // at most one split event, two start-face bits, vertex count within two of the
 // estimate, with / without attribute connectivity data and decoders) in mixed
-// radix; only the seam bits are drawn at random (from |index| and its lap
-// number, so that later laps over the space see other seam patterns).
+// radix; on lap 0 (and on laps beyond 3*faces) the seam bits are drawn at
+// random from |index| and the lap number; laps 1..3*faces set exactly one seam
+// bit, at position lap-1.
 ByzSpec GenerateEnumSpec(uint64_t index) {
   ByzSpec s;
   static const uint32_t all[] = {SYM_C, SYM_S, SYM_L, SYM_R, SYM_E};
@@ -319,11 +320,22 @@ ByzSpec GenerateEnumSpec(uint64_t index) {
   s.num_attribute_data = attdata;
   s.att_decoders = dec ? (attdata ? 2 : 1) : 0;
   Rng r(mix64(index, 0x5ea3 + lap));
+  if (lap >= 1 && lap - 1 < s.num_faces * 3) {
+    // Laps 1..3*faces: sparse seam patterns, walked in order - exactly one seam
+    // bit set, at position lap-1 (a lone seam edge is what a decoder's
+    // attribute-connectivity pass is least prepared for; random density 1/3
+    // almost never produces it).
+    for (uint32_t i = 0; i < s.num_faces * 3 + 8; ++i) s.seams.push_back(i == lap - 1 ? 1 : 0);
+    return s;
+  }
   for (uint32_t i = 0; i < s.num_faces * 3 + 8; ++i) s.seams.push_back(r.Chance(1, 3));
   return s;
 }
 
 }  // namespace
+
+// Number of structures of the stratified space (one lap of GenerateEnumSpec).
+uint64_t ByzEnumTotal() { return 239040; }
 
 void ByzEdgebreakerBytes(uint64_t seed, int mode, std::vector<uint8_t> *out) {
   const ByzSpec s = mode == 2   ? GenerateEnumSpec(seed)
